@@ -45,6 +45,14 @@ func (v *ReplaceValidator) Validate(p patch.Patch) error {
 		}
 	}
 
+	if err := getObjects(doc[document.ReplacePublicKeyProperty], document.ReplacePublicKeyProperty); err != nil {
+		return err
+	}
+
+	if err := getObjects(doc[document.ReplaceServiceProperty], document.ReplaceServiceProperty); err != nil {
+		return err
+	}
+
 	if err := validatePublicKeys(doc.PublicKeys()); err != nil {
 		return fmt.Errorf("failed to validate public keys for replace document: %s", err.Error())
 	}
